@@ -240,7 +240,7 @@ class Eraser {
       // a constant addition ('a' + 'b') has no observable evaluation, so passing it again is harmless
       const simple = isObj(e) && (e.type === 'Identifier' || isLitSum(e) || (e.type === 'TemplateLiteral' && e.expressions.length === 0))
       if (!simple) { rec.restOk = false; this.problem('hook-arg-not-simple', name, `hook operand ${summ(e)} is an expression that would be evaluated a second time`) }
-      if (a.spread && !(this.isTemp(e))) { rec.restOk = false; this.problem('hook-arg-spread', name, `hook operand ...${summ(e)} re-spreads something that is not a temporary`) }
+      if (a.spread && !(this.isTemp(e)) && !isLitSum(e)) { rec.restOk = false; this.problem('hook-arg-spread', name, `hook operand ...${summ(e)} re-spreads something that is not a temporary`) }
       if (a.spread && this.isTemp(e)) { const b = this.lookup(e.value, env); if (b && !b.spreadOf) this.problem('spread-not-materialised', 'hookarg', `hook operand ...${e.value} spreads a temporary that is not a fresh array copy`) }
       if (this.isTemp(e) && !this.lookup(e.value, env)) this.problem('temp-outside-sequence', 'hookarg', `hook operand ${e.value} is not assigned in an enclosing sequence`)
     }
